@@ -716,7 +716,8 @@ def gen_C17(tier, seed):
 # C20: a rejected call leaves no trace
 # ----------------------------------------------------------------------------------------------------------------------
 BAD_ARG = {      # class -> list of (kwargs that make the call raise)
-    'channel': [{'units': I(5)}, {'properties': L(S('NOT-A-PROPERTY'))}, {'axis': 'WRONGREF'}, {'minimum_value': S('abc')}, 'CAST', {'long_name': I(3)}, {'dimension': L(F(1.5))}],
+    'channel': [{'units': I(5)}, {'properties': L(S('NOT-A-PROPERTY'))}, {'axis': 'WRONGREF'}, {'minimum_value': S('abc')}, 'CAST', {'long_name': I(3)}, {'dimension': L(F(1.5))},
+                'CASTSTR', 'CASTCHAR', 'CASTPY'],     # dtype-likes numpy would resolve to a supported dtype, but the library refuses
     'frame': [{'description': I(5)}, {'encrypted': I(7)}, {'spacing': S('wide')}, {'channels': 'WRONGREF'}],
     'axis': [{'axis_id': I(1) if False else None, 'spacing': S('x')}],
     'zone': [{'domain': S('NOT-A-DOMAIN')}, {'description': I(2)}, {'maximum': S('not a date')}],
@@ -761,9 +762,11 @@ def gen_C20(tier, seed):
                     def reject():
                         if proc == 2:
                             return
-                        if bad == 'CAST':
+                        if isinstance(bad, str) and bad.startswith('CAST'):
                             st = {'op': 'add', 'lf': lf, 'cls': 'channel', 'ref': p.ref('x'), 'name': name, 'kw': {},
-                                  'cast_dtype': {'t': 'dtype', 'v': 'int64'}}
+                                  'cast_dtype': {'CAST': {'t': 'dtype', 'v': 'int64'}, 'CASTSTR': {'t': 'dtype', 'v': 'float32', 'as': 'str'},
+                                                 'CASTCHAR': {'t': 'dtype', 'v': 'int32', 'as': 'char'},
+                                                 'CASTPY': {'t': 'dtype', 'v': 'float64', 'as': 'pytype'}}[bad]}
                             p.steps.append(st)
                             return
                         raw = {}
